@@ -900,3 +900,79 @@ Proof.
   intros lits x HA HE. destruct (info_js lits x) as [j|] eqn:E; [|reflexivity]. pose proof (info_some_inK lits x j HA E) as K.
   exfalso. apply existsb_exists in HE. destruct HE as (c & Hin & Hc). rewrite forallb_forall in K. rewrite (K c Hin) in Hc. discriminate.
 Qed.
+
+(* ------------------------------------------------------------------ the alias scanner is exactly the regex: every match has the shape
+   e ++ " as" / " AS" ++ (1 + gap spaces) ++ alias ++ (k spaces), with e free of line terminators and alias an [a-zA-Z][a-zA-Z0-9_]* word
+   (with as_alias_found: that shape, without trailing spaces, is matched) *)
+Lemma all_sp_repeat : forall l, forallb is_sp l = true -> l = repeat SP (length l).
+Proof.
+  induction l as [|c l IH]; intro H; [reflexivity|]. cbn [forallb] in H. apply andb_true_iff in H. destruct H as [H1 H2].
+  cbn [length repeat]. unfold is_sp in H1. apply N.eqb_eq in H1. subst c. f_equal. exact (IH H2).
+Qed.
+Lemma drop_sp_split : forall r, exists k, r = repeat SP k ++ drop_sp r.
+Proof.
+  induction r as [|c r [k IH]]; [exists 0%nat; reflexivity|]. unfold drop_sp in *. cbn [lstrip_by]. destruct (is_sp c) eqn:E.
+  - exists (S k). unfold is_sp in E. apply N.eqb_eq in E. subst c. cbn [repeat app]. f_equal. exact IH.
+  - exists 0%nat. reflexivity.
+Qed.
+
+Theorem as_alias_sound : forall t a, as_alias_match t = Some a ->
+  exists e up gap k, t = as_text e up gap a ++ repeat SP k /\ forallb (dot_ok LJs) e = true /\ is_alias_name a = true.
+Proof.
+  intros t a H. unfold as_alias_match in H. destruct (drop_sp_split (rev t)) as [k Hk].
+  destruct (span_by not_sp (drop_sp (rev t))) as [al_rev r2] eqn:S1. destruct (span_by_split _ _ _ _ S1) as [E1 _].
+  destruct (span_by is_sp r2) as [sps r3] eqn:S2. destruct (span_by_split _ _ _ _ S2) as [E2 Hsp].
+  destruct sps as [|s0 sps]; [discriminate|]. destruct r3 as [|c1 [|c2 [|c3 rest]]]; try discriminate.
+  destruct (((N.eqb c1 115 && N.eqb c2 97) || (N.eqb c1 83 && N.eqb c2 65)) && is_sp c3 && forallb (dot_ok LJs) rest && is_alias_name (rev al_rev)) eqn:C; [|discriminate].
+  injection H as <-. apply andb_true_iff in C. destruct C as [C C4]. apply andb_true_iff in C. destruct C as [C C3]. apply andb_true_iff in C. destruct C as [C1 C2].
+  unfold is_sp in C2. apply N.eqb_eq in C2. subst c3.
+  assert (U : exists up, [c1; c2] = rev (kw_as up)).
+  { apply orb_true_iff in C1. destruct C1 as [C1|C1]; apply andb_true_iff in C1; destruct C1 as [A B]; apply N.eqb_eq in A, B; subst c1 c2; [exists false|exists true]; reflexivity. }
+  destruct U as [up U]. exists (rev rest), up, (length sps), k. split; [|split; [rewrite forallb_rev; exact C3|exact C4]].
+  rewrite <- (rev_involutive t), Hk, E1, E2, (all_sp_repeat _ Hsp). cbn [length].
+  change (c1 :: c2 :: 32 :: rest) with ([c1; c2] ++ SP :: rest). rewrite U.
+  rewrite <- (rev_involutive (as_text (rev rest) up (length sps) (rev al_rev) ++ repeat SP k)). f_equal.
+  rewrite rev_app_distr, rev_as_text, !rev_involutive, rev_repeat_ch. reflexivity.
+Qed.
+
+(* hence: a text whose last word is not an [a-zA-Z][a-zA-Z0-9_]* word has no alias *)
+Corollary as_alias_none_shape : forall t,
+  (forall e up gap a k, t = as_text e up gap a ++ repeat SP k -> is_alias_name a = false) -> as_alias_match t = None.
+Proof.
+  intros t H. destruct (as_alias_match t) as [a|] eqn:E; [|reflexivity]. destruct (as_alias_sound t a E) as (e & up & gap & k & Ht & _ & Ha).
+  rewrite (H e up gap a k Ht) in Ha. discriminate.
+Qed.
+
+Lemma drop_sp_repeat : forall k Y, drop_sp (repeat SP k ++ Y) = drop_sp Y.
+Proof. induction k as [|k IH]; intro Y; [reflexivity|]. cbn [repeat app]. unfold drop_sp in *. cbn [lstrip_by]. change (is_sp SP) with true. cbv iota. exact (IH Y). Qed.
+
+Theorem as_alias_complete : forall e up gap a k, is_alias_name a = true -> forallb (dot_ok LJs) e = true ->
+  as_alias_match (as_text e up gap a ++ repeat SP k) = Some a.
+Proof.
+  intros e up gap a k Ha He. pose proof (as_alias_found e up gap a Ha He) as F. unfold as_alias_match in *.
+  rewrite rev_app_distr, rev_repeat_ch, drop_sp_repeat. exact F.
+Qed.
+
+(* ------------------------------------------------------------------ witnesses of disagreement between the two ports *)
+(* aN with N = 0 (a variable the user's init code may define): both ports take it for column number 0, index -1;
+   JavaScript then reads input_header[-1] = undefined, Python reads input_header[-1] = the LAST name *)
+Definition hdr_xy : list str := [[120]; [121]].
+Theorem a0_info : info_js [] [97; 48] = Some (JIdx TA (-1)).
+Proof. vm_compute. reflexivity. Qed.
+Theorem a0_headers_differ :
+  build_header_js hdr_xy [] [Some (JIdx TA (-1))] [] = [None] /\ build_header_pyz hdr_xy [] [Some (JIdx TA (-1))] [] = Some [[121]].
+Proof. vm_compute. split; reflexivity. Qed.
+Theorem a0_headerless_differ :
+  build_header_js [] [] [Some (JIdx TA (-1)); Some (JAlias [122])] [] = [None; Some [122]] /\
+  build_header_pyz [] [] [Some (JIdx TA (-1)); Some (JAlias [122])] [] = None.
+Proof. vm_compute. split; reflexivity. Qed.
+
+(* the JavaScript regexes see the TEXT: a parenthesised column variable, blanks inside the brackets or an identifier outside
+   ASCII are "other" items for rbql-js, while the Python ast sees the same HField / HDict / HVar shape with or without them *)
+Definition T_paren_a1 : str := [40; 97; 49; 41].                                   (* (a1) *)
+Definition T_spaced_dict : str := [97; 91; 32] ++ placeholder 0 ++ [32; 93].       (* a[ "x" ] after literal separation *)
+Definition T_eacute : str := [233].                                                (* the identifier e-acute *)
+Theorem js_text_only :
+  info_js [] T_paren_a1 = None /\ info_js [[34; 120; 34]] T_spaced_dict = None /\ info_js [] T_eacute = None /\
+  info_js [[34; 120; 34]] ([97; 91] ++ placeholder 0 ++ [93]) = Some (JName [120]).
+Proof. vm_compute. repeat split; reflexivity. Qed.
